@@ -243,7 +243,8 @@ class MiniMallocate(RewritePattern):
             for use in value.uses:
                 uses[get_top_level_op(use.operation)].append(buffer)
                 if isinstance(use.operation, builtin.UnrealizedConversionCastOp) or any(
-                    isinstance(result.type, builtin.MemRefType) for result in use.operation.results
+                    isinstance(result.type, builtin.MemRefType | builtin.UnrankedMemRefType)
+                    for result in use.operation.results
                 ):
                     for result in use.operation.results:
                         add_uses(result, buffer)
@@ -251,7 +252,7 @@ class MiniMallocate(RewritePattern):
                     # the buffer leaves a region through its terminator (scf.yield): it lives on in the results of the parent op
                     assert parent is not None
                     for result in parent.results:
-                        if isinstance(result.type, builtin.MemRefType):
+                        if isinstance(result.type, builtin.MemRefType | builtin.UnrankedMemRefType):
                             add_uses(result, buffer)
 
         if len(func_op.body.blocks) != 1:
